@@ -18,7 +18,12 @@ def gen_cases(tier, seed, ctx):
         i = len(cases)
         p = FG.write(ctx, 'b%d.zck' % i, b)
         zt = FG.ztab(b, p + '.ztab')
-        cases.append(E.Case('b%d' % i, 'READSEQ %s %s %s' % (p, ','.join(map(str, sizes)), zt), dict(kind=kind, **m)))
+        cases.append(E.Case('b%d' % i, 'READSEQ %s %s %s' % (p, ','.join(map(str, sizes)), zt), dict(kind=kind, **{k: v for k, v in m.items() if k != 'good'})))
+        # the same read on a context whose chunks were first marked valid from the INDEX of an intact copy
+        # (zck_find_matching_chunks compares checksums in the indexes, not bytes): the reader must verify the bytes all the same
+        if 'good' in m and (kind != 'bitflip' or i % 5 == 0):
+            gp = FG.write(ctx, 'b%d.good.zck' % i, m['good'])
+            cases.append(E.Case('b%dm' % i, 'READSEQ %s %s %s match=%s' % (p, ','.join(map(str, sizes)), zt, gp), dict(kind=kind + '/premarked')))
     files = []
     for zd in (None, FG.text(rnd, 90)):
         for un in (False, True):
@@ -38,7 +43,7 @@ def gen_cases(tier, seed, ctx):
                     acc += c['comp_len']
                 ln = max(hit['len'], 2) if hit else 64
                 for bs in ((ln // 3 or 1), ln, ln + 17) if (bit == (pos % 8) or tier == 'thorough') else (rnd.choice([ln // 3 or 1, ln, ln + 17]),):
-                    add('bitflip', bytes(m), [bs])
+                    add('bitflip', bytes(m), [bs], good=b)
         # corrupted bodies that decompress to something else, with checksums NOT updated: replace a chunk's body by another valid frame
         for k in range(1, len(z.chunks)):
             for j in range(1, len(z.chunks)):
